@@ -123,7 +123,7 @@ func main() {
 	}
 	fn(c)
 	if len(argMutations) > 0 {
-		c.Direct("the library edited a rule list its caller passed in", strings.Join(argMutations, "\n"))
+		c.Direct("the library edited a rule list that belongs to its caller (one handed in, or one it had returned)", strings.Join(argMutations, "\n"))
 	}
 	cleanupScratch()
 	if err := c.W.Close(); err != nil {
